@@ -265,12 +265,14 @@ def add_text_op(script, op, op_no):
     if k == "dump":
         n = script._add(f"T {st} {script._params(params)} {op['arena']} {op['off']} {op['len']} {op['ml']} {op['cm']} {op['grp']} {op['base']} {op['slot']}", op_no)
         script.expect[n] = {"kind": "dump", "op_no": op_no}
+        script.slots = getattr(script, "slots", set()) | {op["slot"]}
     elif k == "channel":
         n = script._add(f"X {op['slot']} {op['kind']} {op['arg']}", op_no)
         script.expect[n] = {"kind": "channel", "op_no": op_no}
     elif k == "restore_slot":
         n = script._add(f"R {st} {script._params(params)} {op['arena']} {op['off']} {op['len']} @{op['slot']}", op_no)
-        script.expect[n] = {"kind": "restore", "expected": op.get("expect"), "op_no": op_no,
+        expected = op.get("expect") if op["slot"] in getattr(script, "slots", set()) else None
+        script.expect[n] = {"kind": "restore", "expected": expected, "op_no": op_no,
                             "facts": {"multiline": bool(op.get("ml")), "faulted": bool(op.get("faulted")),
                                       "has_array": bool(op.get("has_array"))}}
         script.untracked = getattr(script, "untracked", set()) | {op["arena"]}
